@@ -1,11 +1,11 @@
-(* Obligation C10/multiplicative_needs_unit_magnitude.  Statement as printed by Coq from Inferno.C10.KernelProofs; proof by reference.
+(* Obligation C10/multiplicative_needs_unit_magnitude.  Statement as printed by Coq from Inferno.C10.KernelRange; proof by reference.
    This file contains nothing else, so the statement cannot be weakened quietly. *)
 From Coq Require Import List ZArith Bool Arith Reals Lra Lia Permutation.
-From Inferno Require Import Base.Num Base.NumR Gen.Bounding C10.Updater C10.KernelProofs C10.AccProofs C10.OrderProofs C10.WorldProofs C10.UpdateProofs C10.InterleaveProofs.
+From Inferno Require Import Base.Num Base.NumR Gen.Bounding C10.Updater C10.KernelAlgebra C10.KernelRange.
 Import ListNotations.
 Open Scope R_scope.
 Theorem multiplicative_needs_unit_magnitude : exists x p n mx mn : R,
     mn <= x <= mx /\
     0 <= p /\ 0 <= n <= 1 /\ ~ x + bound_multiplicative RN x p n (Some mx) (Some mn) <= mx.
-Proof. exact (@Inferno.C10.KernelProofs.multiplicative_needs_unit_magnitude). Qed.
+Proof. exact (@Inferno.C10.KernelRange.multiplicative_needs_unit_magnitude). Qed.
 Print Assumptions multiplicative_needs_unit_magnitude.
